@@ -189,7 +189,7 @@ static void emit_case(char const* kind, char const* engine, std::size_t nres, st
     for (auto const& d : dd)
     {
         std::vector<long long> pat; // 1 = blank, 2 = other character
-        for (char c : d.name) pat.push_back(c == ' ' ? 1 : 2);
+        for (char c : d.name) pat.push_back(c == ' ' ? 1 : 2); // (any character that is not a blank - also a tab or a carriage return - is just a character of the name)
         names.push_back(pat);
         bx.push_back((long long) d.bx);
         by.push_back((long long) d.by);
@@ -302,18 +302,18 @@ static void one_case(rng& g, char const* ename, E const& base, int kind, std::si
 template <typename E> static void engine_family(rng& g, char const* ename, E const& base, bool thorough, bool heavy)
 {
     // (a name is any line of text: it may look like a comment, a number or a header)
-    static char const* names[12] = {"", "x", " ", " x", "x ", "x y", "  ", "a b c", "#jets", "# 1 17", "12", "-1.5e+00 3"};
+    static char const* names[15] = {"", "x", " ", " x", "x ", "x y", "  ", "a b c", "#jets", "# 1 17", "12", "-1.5e+00 3", "cr\r", "\r", "tab\t"};
     for (int kind = 0; kind != 3; ++kind)
         for (std::size_t nres = 0; nres <= (heavy ? 1u : 2u); ++nres)
         {
             std::vector<std::vector<dist_desc>> sets{{}};
-            if (nres && heavy) sets.push_back({dist_desc{names[g.below(12)], 1, 1}, dist_desc{names[g.below(12)], 2, 1 + g.below(2)}});
+            if (nres && heavy) sets.push_back({dist_desc{names[g.below(15)], 1, 1}, dist_desc{names[g.below(15)], 2, 1 + g.below(2)}});
             else if (nres)
             {
                 for (int k = 0; k != (thorough ? 8 : 4); ++k)
                 {
-                    sets.push_back({dist_desc{names[g.below(12)], 1 + g.below(2), 1 + g.below(2)}});
-                    sets.push_back({dist_desc{names[g.below(12)], 1, 1}, dist_desc{names[g.below(12)], 2, 1 + g.below(2)}});
+                    sets.push_back({dist_desc{names[g.below(15)], 1 + g.below(2), 1 + g.below(2)}});
+                    sets.push_back({dist_desc{names[g.below(15)], 1, 1}, dist_desc{names[g.below(15)], 2, 1 + g.below(2)}});
                 }
                 sets.push_back({dist_desc{"", 1, 1}});
                 sets.push_back({dist_desc{" x", 2, 2}, dist_desc{"", 1, 1}, dist_desc{" ", 1, 2}});
